@@ -113,14 +113,35 @@ pub fn families(tier: Tier) -> Vec<Family> {
     gal.extend(ops_product(2, &[1], &[24000], &[0], &[true]));
     gal.extend(rejected_ops(2, &[3]));
     fams.push(Family { name: "g:refused_on_known_track(T=1,M=2^32-1)".into(), movie: mg, alphabet: gal, max_len: if th { 4 } else { 3 }, filter: None });
+
+    // (h) add_track calls the muxer refuses, before / between / after accepted ones: every sequence of 1..3 track
+    // configurations over {AVC, AAC, AVC with a 1-byte SPS (refused), text track with timescale 0 (refused)}
+    let mut bad_avc = TrackSpec::new(Kind::Avc, 2000);
+    bad_avc.sps = vec![0x67];
+    let specs = [TrackSpec::new(Kind::Avc, 1000), TrackSpec::new(Kind::Aac, 48000), bad_avc, TrackSpec::new(Kind::Ttxt, 0)];
+    for len in 1..=3usize {
+        for code in 0..4usize.pow(len as u32) {
+            let idx: Vec<usize> = (0..len).map(|i| (code / 4usize.pow(i as u32)) % 4).collect();
+            if idx.iter().all(|&i| i < 2) {
+                continue; // no refused track: covered by the other families
+            }
+            let tracks: Vec<TrackSpec> = idx.iter().map(|&i| specs[i].clone()).collect();
+            let mut al = vec![];
+            for t in 1..=3u32 {
+                al.push(Op { track: t, size: 1 + t, dur: 500, off: 0, sync: true });
+            }
+            al.push(Op { track: 1, size: 2, dur: 250, off: 3, sync: false });
+            fams.push(Family { name: format!("h:refused_add_track:{}", idx.iter().map(|&i| ["avc", "aac", "AVC-short-sps", "TTXT-timescale-0"][i]).collect::<Vec<_>>().join("+")), movie: MovieSpec::new(1000, tracks), alphabet: al, max_len: 3, filter: None });
+        }
+    }
     fams
 }
 
 /// C01 oracle on one history.  Returns the muxer output for oracles layered on top (C02).
 pub fn judge(prop: &str, seed: u64, fam: &Family, h: &[Op], dup: bool, l: &mut Local) -> Option<Vec<u8>> {
-    let n = fam.movie.tracks.len();
+    let nspecs = fam.movie.tracks.len();
     let case = || json!({"family": fam.name, "config": fam.movie.to_json(), "history": hist_json(h), "seed": seed});
-    l.transitions += (2 + n + h.len()) as u64;
+    l.transitions += (2 + nspecs + h.len()) as u64;
     let out = match mux(seed, &fam.movie, h) {
         Ok(o) => o,
         Err(e) => {
@@ -129,11 +150,15 @@ pub fn judge(prop: &str, seed: u64, fam: &Family, h: &[Op], dup: bool, l: &mut L
             return None;
         }
     };
+    // the tracks of the movie are the add_track calls the muxer accepted, numbered 1..n in that order
+    let acc_tracks = accepted_tracks(&out.calls, nspecs);
+    let n = acc_tracks.len();
+    let accepted_movie = MovieSpec { tracks: acc_tracks.iter().map(|&i| fam.movie.tracks[i].clone()).collect(), ..fam.movie.clone() };
     // the reference model holds the samples of the calls the muxer accepted
-    let accepted = accepted_ops(&out.calls, n, h);
+    let accepted = accepted_ops(&out.calls, nspecs, h);
     let expect = reference(seed, n, &accepted);
     let written: usize = expect.iter().map(|t| t.len()).sum();
-    let has_rejected = accepted.len() != h.len();
+    let has_rejected = accepted.len() != h.len() || n != nspecs;
     let mut tags: Vec<&str> = vec![];
     if expect.iter().any(|t| !t.is_empty() && t.iter().all(|s| !s.sync)) {
         tags.push("track_without_sync_sample");
@@ -152,14 +177,17 @@ pub fn judge(prop: &str, seed: u64, fam: &Family, h: &[Op], dup: bool, l: &mut L
     // track duration would stop being representable (statement-level model), every other call must succeed
     let mut acc_so_far: Vec<Op> = vec![];
     for (i, r) in out.calls.iter().enumerate() {
-        let is_sample = i > n && i <= n + h.len();
+        let is_sample = i > nspecs && i <= nspecs + h.len();
+        let is_add = i >= 1 && i <= nspecs;
         let (must_fail, may_fail) = if is_sample {
-            let o = h[i - n - 1];
+            let o = h[i - nspecs - 1];
             if o.track == 0 || o.track as usize > n {
                 (true, true)
             } else {
-                (false, model_may_reject(&fam.movie, &acc_so_far, &o))
+                (false, model_may_reject(&accepted_movie, &acc_so_far, &o))
             }
+        } else if is_add {
+            (false, fam.movie.tracks[i - 1].model_may_refuse())
         } else {
             (false, false)
         };
@@ -169,13 +197,13 @@ pub fn judge(prop: &str, seed: u64, fam: &Family, h: &[Op], dup: bool, l: &mut L
             return None;
         }
         if is_sample && r.is_ok() {
-            acc_so_far.push(h[i - n - 1]);
+            acc_so_far.push(h[i - nspecs - 1]);
         }
     }
     // rejected calls leave no trace (differential): the same output as muxing only the accepted calls
     if has_rejected {
         let filtered: Vec<Op> = accepted.clone();
-        match mux(seed, &fam.movie, &filtered) {
+        match mux(seed, &accepted_movie, &filtered) {
             Ok(o2) if o2.bytes == out.bytes => l.outcome("rejected:no_trace"),
             Ok(_) => {
                 l.outcome("rejected:TRACE");
@@ -215,6 +243,18 @@ pub fn judge(prop: &str, seed: u64, fam: &Family, h: &[Op], dup: bool, l: &mut L
             }
         }
         if let Some(t) = r.tracks().get(&id) {
+            let spec = &accepted_movie.tracks[ti];
+            let kind_ok = match spec.kind {
+                Kind::Avc => t.trak.mdia.minf.stbl.stsd.avc1.is_some(),
+                Kind::Hevc => t.trak.mdia.minf.stbl.stsd.hev1.is_some(),
+                Kind::Vp9 => t.trak.mdia.minf.stbl.stsd.vp09.is_some(),
+                Kind::Aac => t.trak.mdia.minf.stbl.stsd.mp4a.is_some(),
+                Kind::Ttxt => t.trak.mdia.minf.stbl.stsd.tx3g.is_some(),
+            };
+            if t.timescale() != spec.timescale || !kind_ok {
+                ok = false;
+                l.violations.push(mk("track_is_not_the_one_added_at_this_position").obs(json!({"track": id, "timescale": t.timescale()})).exp(spec.to_json()));
+            }
             let st = &t.trak.mdia.minf.stbl;
             chunks_total += st.stco.as_ref().map(|s| s.entries.len()).unwrap_or(0) + st.co64.as_ref().map(|s| s.entries.len()).unwrap_or(0);
         }
@@ -280,6 +320,26 @@ pub fn run(tier: Tier, seed: u64) -> i32 {
     let s = explore(&fams, cap, &rep, |fam, h, dup, l| {
         judge("C01", seed, fam, h, dup, l);
     });
+    // histories whose media data passes 4 GiB (sparse stream): two tracks interleaved, read back sample by sample
+    let mut vl = Local::default();
+    let volume: Vec<crate::props::c13::BigCase> = crate::props::c13::cases(Tier::Quick).into_iter().filter(|c| c.heavy && (c.name.starts_with("mdat_size=2^32+1") || c.name.starts_with("two_tracks_second_crosses"))).collect();
+    {
+        use rayon::prelude::*;
+        let parts: Vec<Local> = volume
+            .par_iter()
+            .map(|c| {
+                let mut l = Local::default();
+                crate::props::c13::judge_as("C01", c, &mut l);
+                l
+            })
+            .collect();
+        for p in parts {
+            vl.nontrivial += p.nontrivial;
+            vl.violations.merge(p.violations);
+        }
+    }
+    ev.set("volume_histories", json!({"cases": volume.iter().map(|c| c.name.clone()).collect::<Vec<_>>(), "what": "media data of 2^32+1 bytes on one track; two tracks where the second crosses 2^32: muxed over a sparse stream, validated and read back sample by sample", "agreed": vl.nontrivial}));
+    std::mem::take(&mut vl.violations).drain_into(&rep);
     standard_evidence(
         &mut ev,
         &s,
